@@ -3,5 +3,5 @@
 set -e
 cd /verif/ocaml
 coqc -Q /verif/coq/theories Ugo Extract.v >/dev/null
-ocamlfind ocamlopt -O2 -w -a -package str ugomodel.mli ugomodel.ml sexp.ml codec.ml c20.ml c15.ml c03.ml c11.ml c04.ml c13.ml c01.ml c05.ml c14.ml c16.ml c17.ml c19.ml c08.ml c09.ml main.ml -o ugom 2>/dev/null || \
-ocamlfind ocamlopt -w -a ugomodel.mli ugomodel.ml sexp.ml codec.ml c20.ml c15.ml c03.ml c11.ml c04.ml c13.ml c01.ml c05.ml c14.ml c16.ml c17.ml c19.ml c08.ml c09.ml main.ml -o ugom
+ocamlfind ocamlopt -O2 -w -a -package str ugomodel.mli ugomodel.ml sexp.ml codec.ml c20.ml c15.ml c03.ml c11.ml c04.ml c13.ml c01.ml c05.ml c14.ml c16.ml c17.ml c19.ml c08.ml c09.ml c02.ml main.ml -o ugom 2>/dev/null || \
+ocamlfind ocamlopt -w -a ugomodel.mli ugomodel.ml sexp.ml codec.ml c20.ml c15.ml c03.ml c11.ml c04.ml c13.ml c01.ml c05.ml c14.ml c16.ml c17.ml c19.ml c08.ml c09.ml c02.ml main.ml -o ugom
